@@ -22,3 +22,148 @@ pub fn warm_up_f32() {
         let _ = guarded(|| (x / x, x * x, y / y, y * y, v.clone() / v.clone(), v.clone() * v.clone()));
     }
 }
+
+/// Which family of operations a history-independence run exercises.
+#[derive(Clone, Copy, PartialEq, Eq, Debug)]
+pub enum Family {
+    Elementary,
+    Powers,
+    SphericalBessel,
+    CylindricalBessel,
+}
+
+/// History independence: every operation of the interface is a pure function of its operands, so
+/// the same list of calls must give bit-identical results (a) in the natural order on the main
+/// thread, (b) in shuffled orders on fresh threads (thread-local state starts empty and is filled
+/// in a different order), and (c) on several threads at once (process-wide caches are hit
+/// concurrently with different keys).  Any difference is a result that depends on what was called
+/// before, by whom, or at the same time.
+pub fn history_independence(fam: Family, ctx: &ndv_core::evidence::Ctx) -> ndv_core::evidence::Acc {
+    use ndv_core::evidence::{guarded, Acc};
+    use ndv_core::funcs::{apply, apply_bessel, c01_funcs};
+    use ndv_core::{Func, Rng};
+    use num_dual::{Dual2_64, Dual32, Dual3_32, Dual3_64, Dual64, DualNum, HyperDual64};
+    use serde_json::json;
+    type Call = (String, Box<dyn Fn() -> Vec<f64> + Send + Sync>);
+    let mut calls: Vec<Call> = Vec::new();
+    let args: Vec<f64> = match fam {
+        Family::Elementary => vec![0.3, 0.75, 1.5, 7.0],
+        Family::Powers => vec![0.3, 0.75, 1.5, 7.0],
+        Family::SphericalBessel => vec![0.0, 1e-9, 0.2, 0.6, 0.99, 1.5, 12.0, -0.4],
+        Family::CylindricalBessel => vec![0.0, 1e-7, 0.2, 0.45, 0.6, 3.0, 4.9, 5.5, 30.0, -0.3],
+    };
+    macro_rules! unary {
+        ($f:expr, $x:expr) => {{
+            let (f, x): (Func, f64) = ($f, $x);
+            calls.push((format!("{}({}) on Dual64", f.name(), x), Box::new(move || { let r = apply::<Dual64, f64>(f, &Dual64::new(x, 1.25)); vec![r.re, r.eps] })));
+            calls.push((format!("{}({}) on Dual3_64", f.name(), x), Box::new(move || { let r = apply::<Dual3_64, f64>(f, &Dual3_64::new(x, 1.25, -0.5, 0.75)); vec![r.re, r.v1, r.v2, r.v3] })));
+            calls.push((format!("{}({}) on HyperDual64", f.name(), x), Box::new(move || { let r = apply::<HyperDual64, f64>(f, &HyperDual64::new(x, 1.25, -0.5, 0.75)); vec![r.re, r.eps1, r.eps2, r.eps1eps2] })));
+            calls.push((format!("{}({}) on Dual32", f.name(), x), Box::new(move || { let r = apply::<Dual32, f32>(f, &Dual32::new(x as f32, 1.25)); vec![r.re as f64, r.eps as f64] })));
+            calls.push((format!("{}({}) on Dual3_32", f.name(), x), Box::new(move || { let r = apply::<Dual3_32, f32>(f, &Dual3_32::new(x as f32, 1.25, -0.5, 0.75)); vec![r.re as f64, r.v1 as f64, r.v2 as f64, r.v3 as f64] })));
+        }};
+    }
+    match fam {
+        Family::Elementary => {
+            for f in c01_funcs().into_iter().chain([Func::Log(2.0), Func::Log(10.0), Func::Log(0.3), Func::Log(7.5), Func::Log(std::f64::consts::E), Func::Log(1.0e6)]) {
+                for x in &args {
+                    // stay inside every domain: asin/acos/atanh take |x| < 1, acosh x > 1
+                    let x = match f {
+                        Func::Asin | Func::Acos | Func::Atanh => x / 8.0,
+                        Func::Acosh => x + 1.0,
+                        _ => *x,
+                    };
+                    unary!(f, x);
+                }
+            }
+        }
+        Family::Powers => {
+            for x in &args {
+                for n in [-3i32, 0, 1, 2, 3, 7, 40] {
+                    unary!(Func::Powi(n), *x);
+                }
+                for p in [-1.5f64, 0.5, 2.0, 2.5, 3.0, 10.0] {
+                    unary!(Func::Powf(p), *x);
+                }
+                let x = *x;
+                for e in [0.5f64, 2.0, -1.25, 3.5] {
+                    calls.push((format!("powd({}, {}) on Dual2_64", x, e), Box::new(move || { let r = Dual2_64::new(x, 1.0, 0.5).powd(Dual2_64::new(e, -0.75, 0.25)); vec![r.re, r.v1, r.v2] })));
+                    calls.push((format!("powd({}, {}) on Dual32", x, e), Box::new(move || { let r = Dual32::new(x as f32, 1.0).powd(Dual32::new(e as f32, -0.75)); vec![r.re as f64, r.eps as f64] })));
+                }
+            }
+        }
+        Family::SphericalBessel => {
+            for f in [Func::SphJ0, Func::SphJ1, Func::SphJ2] {
+                for x in &args {
+                    unary!(f, *x);
+                }
+            }
+        }
+        Family::CylindricalBessel => {
+            for f in [Func::BesselJ0, Func::BesselJ1, Func::BesselJ2] {
+                for x in &args {
+                    let x = *x;
+                    calls.push((format!("{}({}) on Dual64", f.name(), x), Box::new(move || { let r = apply_bessel(f, Dual64::new(x, 1.25)); vec![r.re, r.eps] })));
+                    calls.push((format!("{}({}) on Dual3_64", f.name(), x), Box::new(move || { let r = apply_bessel(f, Dual3_64::new(x, 1.25, -0.5, 0.75)); vec![r.re, r.v1, r.v2, r.v3] })));
+                    calls.push((format!("{}({}) on f64", f.name(), x), Box::new(move || vec![apply_bessel(f, x)])));
+                }
+            }
+        }
+    }
+    let mut acc = Acc::new();
+    let bits = |v: &Vec<f64>| v.iter().map(|x| x.to_bits()).collect::<Vec<_>>();
+    // (a) reference: natural order, this thread
+    let reference: Vec<Option<Vec<u64>>> = calls.iter().map(|(_, c)| guarded(|| c()).ok().map(|v| bits(&v))).collect();
+    let ncalls = calls.len();
+    let compare = |acc: &mut Acc, kind: &str, order: &[usize], got: &[Option<Vec<u64>>]| {
+        for (pos, &ci) in order.iter().enumerate() {
+            if got[pos] != reference[ci] {
+                let prev: Vec<&str> = order[..pos].iter().rev().take(4).map(|&k| calls[k].0.as_str()).collect();
+                acc.violate(
+                    format!("history:{}:{:?}", kind, fam),
+                    format!("{}: {} gives parts with bits {:x?} here but {:x?} in the natural order on the main thread; calls just before on this thread: {:?}", kind, calls[ci].0, got[pos], reference[ci], prev),
+                    json!({"family": format!("{:?}", fam), "kind": kind, "call": calls[ci].0, "position": pos, "preceding_calls": prev}),
+                );
+                return;
+            }
+        }
+    };
+    // (b) shuffled orders, each on a fresh thread
+    let rounds = ctx.n(24, 2000);
+    for r in 0..rounds {
+        let mut rng = Rng::stream(ctx.seed, 31000 + fam as u64, r);
+        let mut order: Vec<usize> = (0..ncalls).collect();
+        match r % 3 {
+            0 => order.reverse(),
+            _ => rng.shuffle(&mut order),
+        }
+        // a fresh thread often starts with a single function family member or a single type
+        if r % 4 == 1 {
+            order.truncate(ncalls / 3 + 1);
+        }
+        let got: Vec<Option<Vec<u64>>> = std::thread::scope(|s| s.spawn(|| order.iter().map(|&ci| guarded(|| (calls[ci].1)()).ok().map(|v| bits(&v))).collect()).join().unwrap());
+        acc.observe(&format!("history|{:?}|fresh-thread-{}", fam, ["reversed", "shuffled", "shuffled"][(r % 3) as usize]), true);
+        compare(&mut acc, "fresh thread, different call order", &order, &got);
+    }
+    // (c) eight threads at once, each in its own order, several passes
+    for r in 0..ctx.n(6, 200) {
+        let orders: Vec<Vec<usize>> = (0..8)
+            .map(|t| {
+                let mut rng = Rng::stream(ctx.seed, 32000 + fam as u64, r * 8 + t);
+                let mut o: Vec<usize> = (0..ncalls).collect();
+                rng.shuffle(&mut o);
+                o
+            })
+            .collect();
+        let results: Vec<Vec<Option<Vec<u64>>>> = std::thread::scope(|s| {
+            let hs: Vec<_> = orders.iter().map(|o| s.spawn(|| (0..3).flat_map(|_| o.iter().map(|&ci| guarded(|| (calls[ci].1)()).ok().map(|v| bits(&v)))).collect::<Vec<_>>())).collect();
+            hs.into_iter().map(|h| h.join().unwrap()).collect()
+        });
+        acc.observe(&format!("history|{:?}|eight-threads-at-once", fam), true);
+        for (o, got) in orders.iter().zip(&results) {
+            let o3: Vec<usize> = (0..3).flat_map(|_| o.iter().copied()).collect();
+            compare(&mut acc, "eight threads at once", &o3, got);
+        }
+    }
+    acc.count(&format!("history_calls[{:?}]", fam), ncalls as u64);
+    acc
+}
